@@ -3,7 +3,7 @@ use typst_syntax::{ast::*, SyntaxKind, SyntaxNode};
 
 use super::{
     layout::flow::{FlowItem, FlowStylist},
-    util::is_comment_node,
+    util::{has_free_line_comment, is_comment_node},
     ArenaDoc, Context, Mode, PrettyPrinter,
 };
 use crate::ext::{BoolExt, StrExt};
@@ -120,11 +120,14 @@ impl<'a> PrettyPrinter<'a> {
                 }
                 LookAhead::Body => {
                     if let Some(expr) = child.cast() {
-                        let use_braces = if let Expr::Binary(binary) = expr {
-                            !is_chainable_binary(binary)
-                        } else {
-                            true
-                        };
+                        // Braces put the body in code mode, where the line break after a line comment
+                        // would end the expression: such a body gets parentheses instead.
+                        let use_braces = !has_free_line_comment(child)
+                            && if let Expr::Binary(binary) = expr {
+                                !is_chainable_binary(binary)
+                            } else {
+                                true
+                            };
                         return FlowItem::spaced(
                             self.convert_expr_with_optional_paren(ctx, expr, use_braces),
                         );
